@@ -258,6 +258,19 @@ func (in *Interp) initGlobal(gl *ssa.Global, c *Cell) {
 			addVal(st.Val)
 			found = true
 		}
+		// element-wise initialisation: &gl[i] / &gl.f rooted directly at the global
+		switch x := i.(type) {
+		case *ssa.IndexAddr:
+			if x.X == ssa.Value(gl) {
+				addVal(x)
+				found = true
+			}
+		case *ssa.FieldAddr:
+			if x.X == ssa.Value(gl) {
+				addVal(x)
+				found = true
+			}
+		}
 	}
 	if !found {
 		return // zero value
